@@ -89,8 +89,10 @@ FMonEffect(m, ev) ==
          [m EXCEPT !.touched = m.touched \cup {ev.s}, !.routed = TRUE,
                    !.raised = IF ev.ok THEN m.raised ELSE m.raised \cup {ev.x},
                    !.cf = [m.cf EXCEPT ![ev.s] = IF ev.ok THEN 0 ELSE IF ~ev.os THEN @ ELSE IF @ < 3 THEN @ + 1 ELSE 3],
-                   !.fa = IF ev.ok THEN [m.fa EXCEPT ![ev.s] = <<>>]      \* an answered contact ends the run of failures
-                          ELSE IF ~ev.os THEN m.fa
+                   (* a contact the server ANSWERED -- with a result or with a memcached-level error -- ends the run of   *)
+                   (* connection failures: "failing" means unreachable (OSError), and set_many under ignore_exc treats a   *)
+                   (* protocol-level error as an answer (pinned by the suite's test_ignore_exec_set_many)                  *)
+                   !.fa = IF ev.ok \/ ~ev.os THEN [m.fa EXCEPT ![ev.s] = <<>>]
                           ELSE [m.fa EXCEPT ![ev.s] = SubSeq(<<0>> \o @, 1, IF Len(@) + 1 > h.ra + 2 THEN h.ra + 2 ELSE Len(@) + 1)]]
     [] ev.e \in {"ret", "raise"} -> [m EXCEPT !.incall = FALSE, !.keys = <<>>, !.touched = {}, !.raised = {}]
     [] OTHER -> m
